@@ -167,6 +167,52 @@ def build_scenarios(ck, sr, cfgs, seeds):
     return scripts, inj_desc, meta
 
 
+GCM12 = {"tls12": "009c", "tls12_cauth": "009c", "tls12_rsa": None, "tls12_ec": "c02b", "tls12_big_cauth": "009c",
+         "tls12_resumed_id": "009c", "tls12_resumed_ticket": "009c", "tls12c_13s": "009c", "tls12_ticketopt": "009c"}
+EXTRA_CONFIGS = {"tls12_ticketopt": "cv=3 sv=3 ticket=1"}      # a client that asks for a session ticket and holds none yet
+
+
+def build_keyless_scenarios(ck, sr, cfgs, seeds, scripts, inj_desc, meta):
+    """Attackers that need no key at all (spec oracle only; these steps are not steps of the record-layer model):
+    (a) `nullfin`: in every state of the legal TLS <= 1.2 handshake, on either side, ChangeCipherSpec + a Finished + an application
+        record sealed under the keys that follow from an ALL-ZERO master secret and the public randoms (the victim's secrets are
+        still at their initial value before its key exchange: CVE-2014-0224 and relatives);
+    (b) `nullsh`: the attacker answers the ClientHello itself - ServerHello without extensions, session id echoed / empty / made up,
+        suite of its choice - and goes on with (a): every shortcut of the client towards an abbreviated handshake is tried;
+    (c) unauthenticated records the receiver tolerates (TLS 1.3: ChangeCipherSpec) put in front of genuine records in the same
+        receive call: what is delivered must still be exactly what the peer submitted."""
+    allcfg = dict(CONFIGS); allcfg.update(EXTRA_CONFIGS)
+    for name in cfgs:
+        cfg = allcfg[name]
+        for seed in seeds:
+            trace, _ = sr.legal_trace(cfg, seed)
+            if not trace:
+                ck.count("no_legal_trace:" + name); continue
+            n = len(trace)
+            v13 = "cv=4" in cfg
+            if not v13:
+                for k in range(n + 1):
+                    for side in ("c", "s"):
+                        scripts.append(prefix_script(cfg, seed, trace, k) + " ; nullfin %s ; st" % side)
+                        meta.append((name, k, side, "keyless:nullfin"))
+                for var in (0, 1, 2):
+                    for suite in ("009c", "c02f", "009d", "c030", "c02b"):
+                        scripts.append(sesslib.newcmd(cfg, seed) + " ; nullsh %d %s ; nullfin c ; st" % (var, suite))
+                        meta.append((name, 0, "c", "keyless:nullsh%d:%s" % (var, suite)))
+            # tolerated unauthenticated records coalesced with genuine ones
+            ccs = "140303000101"
+            for k in range(n + 1):
+                for d0 in ("c2s", "s2c"):
+                    snd = "c" if d0 == "c2s" else "s"
+                    tail = (" ; app %s 636f616c6573636564" % snd) if k == n else ""
+                    for where in ("head", "tail"):
+                        if where == "tail" and k < n:
+                            continue
+                        scripts.append(prefix_script(cfg, seed, trace, k) + tail + " ; qinj %s head %s ; " % (d0, ccs)
+                                       + ("qinj %s head %s ; " % (d0, ccs) if where == "tail" else "") + "flight %s all ; st" % d0)
+                        meta.append((name, k, "s" if d0 == "c2s" else "c", "coalesced:ccs%s" % ("x2" if where == "tail" else "")))
+
+
 class _Saved:
     """a record captured by `save` on a DTLS wire queue, described by the metadata `save` printed"""
     def __init__(self, meta, side):
@@ -252,6 +298,11 @@ def run(ck):
     ntls = len(scripts)
     dcfgs = ["dtls12", "dtls12_cbc", "dtls12_cauth", "dtls12_resumed_id", "dtls10"] if ck.tier == "quick" else list(DTLS_CONFIGS)
     build_dtls_scenarios(ck, sr, dcfgs, seeds, scripts, inj_desc, meta, full_cfgs=("dtls12",) if ck.tier == "quick" else ("dtls12", "dtls12_cbc", "dtls10", "dtls12_resumed_id"))
+    kcfgs = (["tls12", "tls12_cauth", "tls12_resumed_id", "tls12_resumed_ticket", "tls12_ticketopt", "tls13", "tls13_cauth", "tls13_resumed_psk"] if ck.tier == "quick"
+             else [c for c in list(CONFIGS) + list(EXTRA_CONFIGS) if "cv=2" not in (dict(CONFIGS, **EXTRA_CONFIGS))[c] and "suite=c027" not in (dict(CONFIGS, **EXTRA_CONFIGS))[c]])
+    nk0 = len(scripts)
+    build_keyless_scenarios(ck, sr, kcfgs, seeds, scripts, inj_desc, meta)
+    ck.cov["keyless_attacker_scenarios"] = len(scripts) - nk0
     corpus = load_corpus(scripts, inj_desc, meta)
     ck.cov["dtls_scenarios"] = len(scripts) - ntls
     outs = sr.run(scripts)
@@ -338,6 +389,43 @@ def run(ck):
                               {"harness": "h_sess", "script": scripts[si], "observed": out[-600:]})
         else:
             ck.count("legal_data_exchange_ok")
+    # key-less attackers (nullsh / nullfin): nothing is ever delivered, and a handshake that was not complete does not become so
+    for si, out in enumerate(outs):
+        if not meta[si][3].startswith("keyless:"):
+            continue
+        for m in sesslib.re.finditer(r"(nullsh|nullfin):([cs]) pre=(\S+) (.*?)post=(\S+)", out):
+            pre, post, body = sesslib.parse_snap(m.group(3)), sesslib.parse_snap(m.group(5)), m.group(4)
+            got = sesslib.re.findall(r"APPDATA:([0-9a-f-]+)", body)
+            if "skip:" in body:
+                ck.count("keyless_skipped_suite"); continue
+            ck.count("keyless:%s:%s" % (m.group(1), "dead" if post and (post["E"] or post["C"]) else "alive"))
+            if got or (pre and post and not pre["done"] and post["done"]) or "HSDONE" in body:
+                ck.spec_violation("keyless-attacker:%s:hs%s:%s" % (m.group(1), pre["hs"] if pre else "?", "delivered" if got else "completed"),
+                                  "an attacker holding no key at all (ChangeCipherSpec + Finished computed from an all-zero master secret%s) %s" % (
+                                      ", after a ServerHello of its own" if "nullsh" in scripts[si] else "",
+                                      ("made the %s deliver %s as application data" % ("server" if m.group(2) == "s" else "client", got)) if got else "completed the victim's handshake"),
+                                  {"harness": "h_sess", "script": scripts[si], "observed": out[-700:], "scenario": meta[si]})
+    # exact delivery, every script: each chunk handed to an application is byte for byte a chunk the peer application submitted
+    # (`app`) or a misbehaving authenticated peer sealed (`forge` of an application record) in that script
+    for si, out in enumerate(outs):
+        sub = set()
+        for c in scripts[si].split(" ; "):
+            w = c.split()
+            if len(w) >= 3 and w[0] == "app":
+                sub.add("" if w[2] == "-" else w[2])
+            if len(w) >= 4 and w[0] == "forge" and w[2] == "23":
+                sub.add("" if (len(w) < 5 or w[4] == "-") else w[4])
+        for a in sesslib.re.findall(r"APPDATA:([0-9a-f]*)", out):
+            if a in sub:
+                ck.count("delivered_chunk_equals_submitted")
+            elif meta[si][3].startswith("keyless:"):
+                pass        # reported above
+            else:
+                ck.spec_violation("delivered-bytes-never-submitted:%s" % meta[si][3].split(":")[0],
+                                  "the application was handed %s, which no application submitted in this session (submitted: %s)" % (a[:80], sorted(sub)[:4]),
+                                  {"harness": "h_sess", "script": scripts[si], "observed": out[-700:], "scenario": meta[si]})
+        if meta[si][3].startswith("coalesced:"):
+            ck.count("coalesced:%s" % ("delivered" if "APPDATA:" in out else "nothing_delivered"))
     # application send only when complete
     enc_cases, enc_obs = [], []
     for si, out in enumerate(outs):
